@@ -1226,3 +1226,442 @@ Proof.
   - destruct (parse_func B f s) as [r s1| |]; try discriminate H. apply IH in H. exact H.
   - destruct (parse_event_handler B f s) as [r s1| |]; try discriminate H. apply IH in H. exact H.
 Qed.
+
+(* ================================================================ *)
+(** * The function table is fixed once the signatures have been read *)
+
+Lemma fns_upd f s : fns (upd f s) = fns s. Proof. reflexivity. Qed.
+Lemma fns_with_scs s l : fns (with_scs s l) = fns s. Proof. reflexivity. Qed.
+Lemma fns_with_cs s c : fns (with_cs s c) = fns s. Proof. reflexivity. Qed.
+Lemma fns_adv s : fns (adv s) = fns s. Proof. reflexivity. Qed.
+Lemma fns_apnl s : fns (apnl s) = fns s. Proof. reflexivity. Qed.
+Lemma fns_serr_at k n s : fns (serr_at k n s) = fns s. Proof. reflexivity. Qed.
+Lemma fns_serr k s : fns (serr k s) = fns s. Proof. reflexivity. Qed.
+Lemma fns_assert_eol s : fns (assert_eol s) = fns s. Proof. unfold assert_eol. destruct (is_at_eol _); reflexivity. Qed.
+Lemma fns_passert t s : fns (snd (passert t s)) = fns s. Proof. unfold passert. destruct (assert_token t (cs s)); reflexivity. Qed.
+Lemma fns_scope_set n p s : fns (scope_set n p s) = fns s.
+Proof. unfold scope_set. destruct (str_eqb _ _); [reflexivity|]. destruct (scs s); reflexivity. Qed.
+Lemma fns_mark n s : fns (mark n s) = fns s. Proof. reflexivity. Qed.
+Lemma fns_push_scope a b c s : fns (push_scope a b c s) = fns s. Proof. reflexivity. Qed.
+Lemma fns_push_inherit b s : fns (push_inherit b s) = fns s. Proof. reflexivity. Qed.
+Lemma fns_pop_scope s : fns (pop_scope s) = fns s. Proof. reflexivity. Qed.
+Lemma fns_ty_err_here site s : fns (ty_err_here site s) = fns s. Proof. reflexivity. Qed.
+Lemma fns_fold_mark l : forall s0, fns (fold_right mark s0 l) = fns s0.
+Proof. induction l; intro; simpl; auto. Qed.
+Lemma fns_collect s c : fns (collect s c) = fns s.
+Proof. unfold collect. rewrite fns_upd, fns_fold_mark. reflexivity. Qed.
+Lemma fns_fold_serr {X} (f : X -> nat) k (l : list X) : forall s, fns (fold_left (fun s v => serr_at k (f v) s) l s) = fns s.
+Proof. induction l as [|x l IH]; intro s; simpl; [reflexivity|]. rewrite IH. reflexivity. Qed.
+Lemma fns_validate_scope s : fns (validate_scope s) = fns s.
+Proof. unfold validate_scope. destruct (scs s); [reflexivity|]. apply fns_fold_serr. Qed.
+Lemma fns_validate_var_decl B n p a s : fns (snd (validate_var_decl B n p a s)) = fns s.
+Proof. unfold validate_var_decl. repeat (destruct (_ : bool); try reflexivity). Qed.
+Lemma fns_finish_end s : fns (finish_end s) = fns s.
+Proof. unfold finish_end. rewrite fns_apnl, fns_assert_eol, fns_adv, fns_passert. reflexivity. Qed.
+
+#[local] Hint Rewrite fns_upd fns_with_scs fns_with_cs fns_adv fns_apnl fns_serr_at fns_serr fns_assert_eol fns_passert
+  fns_scope_set fns_mark fns_push_scope fns_push_inherit fns_pop_scope fns_ty_err_here fns_collect fns_validate_scope
+  fns_validate_var_decl fns_finish_end : fns.
+
+Lemma passert_fns t s ok s' : passert t s = (ok, s') -> fns s' = fns s.
+Proof. intro H. pose proof (fns_passert t s) as X. rewrite H in X. exact X. Qed.
+Lemma vvd_fns B n p a s ok s' : validate_var_decl B n p a s = (ok, s') -> fns s' = fns s.
+Proof. intro H. pose proof (fns_validate_var_decl B n p a s) as X. rewrite H in X. exact X. Qed.
+
+(* FN r: the result keeps the function table of s *)
+Definition FN {A} (s : pst) (r : PR A) : Prop := forall a s', r = Ok a s' -> fns s' = fns s.
+
+Lemma expr_call_fn B {A} (f : env -> nat -> pstate -> res A) s : FN s (expr_call B f s).
+Proof.
+  intros a s' H. unfold expr_call in H. destruct (f _ _ _) as [[x c]|]; [|discriminate H].
+  apply Ok_inj in H as [-> ->]. apply fns_collect.
+Qed.
+
+(* walk through a body recorded in H : body = Ok a s', keeping the table equalities of sub-calls *)
+Ltac fn_sub P := first
+  [ apply expr_call_fn in P | apply passert_fns in P | apply vvd_fns in P ].
+Ltac fn_chew H :=
+  repeat (first
+    [ discriminate H
+    | match type of H with
+      | Ok _ _ = Ok _ _ => fail 1
+      | (match ?m with _ => _ end) = Ok _ _ =>
+          lazymatch m with
+          | context[match _ with _ => _ end] => fail
+          | _ => let P := fresh "P" in first [ destruct m as [? ?| |] eqn:P | destruct m as [? ?] eqn:P | destruct m eqn:P ]; try fn_sub P
+          end
+      | (if ?b then _ else _) = Ok _ _ => let P := fresh "B" in destruct b eqn:P
+      | (let '(_, _) := ?m in _) = Ok _ _ => let P := fresh "A" in destruct m eqn:P; try fn_sub P
+      end ]).
+Ltac fn_fin H :=
+  apply Ok_inj in H; destruct H; subst; autorewrite with fns;
+  repeat match goal with Hf : fns ?x = fns _ |- _ => rewrite Hf; clear Hf; autorewrite with fns end;
+  try reflexivity; try congruence.
+
+(* ================================================================ *)
+(** * Expressions of an error-free parse satisfy the expression rules *)
+
+(* (e) every call names a function of the table, with the right number of arguments unless
+       the function is variadic (a niladic function read as a value takes none);
+   (f, as far as one expression goes) every variable read is visible in the environment;
+   typing: at every node the type checker is consulted for, the oracle did not object
+   (for some blamed token: the tree does not record token positions). *)
+Fixpoint tree_ok (E : env) (t : tree) : Prop :=
+  match t with
+  | TVar n => mem_str n (e_vars E) = true
+  | TNum _ | TStr _ | TBool _ => True
+  | TArr l => (fix all (l : list tree) : Prop := match l with [] => True | x :: r => tree_ok E x /\ all r end) l
+  | TMap l => (fix all (l : list (str * tree)) : Prop := match l with [] => True | x :: r => tree_ok E (snd x) /\ all r end) l
+  | TUn _ r => tree_ok E r /\ exists n, e_tyerr E TS_unary t n = false
+  | TBin _ l r => tree_ok E l /\ tree_ok E r /\ exists n, e_tyerr E TS_binary t n = false
+  | TGroup e => tree_ok E e
+  | TIndex l i => tree_ok E l /\ tree_ok E i /\ (exists n, e_tyerr E TS_not_indexable l n = false) /\
+                  exists n, e_tyerr E TS_index_type t n = false
+  | TSlice l s e => tree_ok E l /\ match s with Some x => tree_ok E x | None => True end /\
+                    match e with Some x => tree_ok E x | None => True end /\
+                    (exists n, e_tyerr E TS_not_indexable l n = false) /\ (exists n, e_tyerr E TS_not_sliceable l n = false) /\
+                    exists n, e_tyerr E TS_slice_bounds t n = false
+  | TDot l _ => tree_ok E l /\ exists n, e_tyerr E TS_dot_not_map l n = false
+  | TAssert l ty => tree_ok E l /\ ty <> None /\ ty <> Some TyAny /\ exists n, e_tyerr E TS_assert_not_any l n = false
+  | TCall name args =>
+      func_of E name <> None /\
+      (fix all (l : list tree) : Prop := match l with [] => True | x :: r => tree_ok E x /\ all r end) args /\
+      ((arity_wrong E name (List.length args) = false /\ exists n, e_tyerr E TS_call_args t n = false) \/
+       (args = [] /\ func_of E name = Some true))
+  end.
+
+Definition all_ok (E : env) (l : list tree) : Prop := Forall (tree_ok E) l.
+Lemma all_ok_fix E l :
+  (fix all (l : list tree) : Prop := match l with [] => True | x :: r => tree_ok E x /\ all r end) l <-> all_ok E l.
+Proof.
+  induction l as [|x l IH]; simpl; [split; [constructor|auto]|].
+  split; [intros [H1 H2]; constructor; [exact H1|apply IH; exact H2]|].
+  intro H. split; [exact (Forall_inv H)|apply IH; exact (Forall_inv_tail H)].
+Qed.
+
+(* like chew, but keeps the equation of every sub-call next to its NE fact *)
+Ltac chew2 H :=
+  unfold ret in H;
+  repeat (first
+    [ discriminate H
+    | match type of H with
+      | Some (_, _) = Some (_, _) => fail 1
+      | (match ?m with _ => _ end) = Some _ =>
+          lazymatch m with
+          | context[match _ with _ => _ end] => fail
+          | _ => let P := fresh "P" in let PE := fresh "PE" in
+                 first [ destruct m as [[? ?]|] eqn:P | destruct m eqn:P ]; try (pose proof P as PE; sub_ne P)
+          end
+      | (if ?b then _ else _) = Some _ => let P := fresh "B" in destruct b eqn:P
+      | (let '(_, _) := ?m in _) = Some _ => let P := fresh "A" in destruct m eqn:P
+      end ]).
+
+(* derive that every recorded intermediate state is error free, from the error-free end state *)
+Ltac back :=
+  repeat match goal with
+         | Hn : NE ?a ?b |- _ =>
+             let T := fresh "T" in assert (T : errs b = []) by ne; specialize (Hn T); clear T
+         | Hn : assert_token ?t ?x = (?ok, ?y) |- _ =>
+             let T := fresh "T" in assert (T : errs y = []) by ne;
+             destruct (assert_token_ne _ _ _ _ Hn T); subst; clear Hn T
+         end.
+
+Section ExprOK.
+Variable E : env.
+Variable pe : nat -> pstate -> res (option tree).
+Hypothesis HNE : forall p c a c', pe p c = Some (a, c') -> NE c c'.
+Hypothesis HOK : forall p c t c', pe p c = Some (Some t, c') -> errs c' = [] -> tree_ok E t.
+
+Ltac sub_ne P ::= first [ apply multiline_ws_ne in P | apply parse_type_ne in P | apply HNE in P
+                        | apply (expr_wss_ne pe HNE) in P | apply (expr_list_ne pe HNE) in P
+                        | apply (func_call_ne E pe HNE) in P | apply (toplevel_ne E pe HNE) in P
+                        | apply (slice_ne E pe HNE) in P ].
+
+Lemma expr_wss_ok c t c' : parse_expr_wss pe c = Some (Some t, c') -> errs c' = [] -> tree_ok E t.
+Proof.
+  unfold parse_expr_wss. intros H Q. chew2 H. injection H as ? ?; subst. autorewrite with errs in Q.
+  eapply HOK; eassumption.
+Qed.
+
+Lemma expr_list_ok : forall fuel acc c l c', parse_expr_list pe fuel acc c = Some (Some l, c') ->
+  errs c' = [] -> all_ok E acc -> all_ok E l.
+Proof.
+  induction fuel as [|f IH]; intros acc c l c' H Q Hacc; [discriminate|]. cbn [parse_expr_list] in H.
+  assert (D1 : ret (Some (rev acc)) c = Some (Some l, c') -> all_ok E l).
+  { unfold ret. intro H1. injection H1 as ? ?; subst. apply Forall_rev. exact Hacc. }
+  assert (D : (if is_at_eol c then ret (Some (rev acc)) c else
+            (do (n, st1) <- parse_expr_wss pe c;
+             match n with None => ret None st1 | Some t => parse_expr_list pe f (t :: acc) (advance_if_ws st1) end)) = Some (Some l, c') -> all_ok E l).
+  { intro H1. destruct (is_at_eol c); [exact (D1 H1)|].
+    destruct (parse_expr_wss pe c) as [[n st1]|] eqn:P; [|discriminate H1].
+    destruct n as [t|]; [|discriminate H1].
+    pose proof (expr_list_ne pe HNE _ _ _ _ _ H1 Q) as Q1. autorewrite with errs in Q1.
+    apply (IH _ _ _ _ H1 Q). constructor; [|exact Hacc]. eapply expr_wss_ok; eassumption. }
+  destruct (cur_t c); try exact (D H); exact (D1 H).
+Qed.
+
+Lemma func_call_ok fuel top nil c t c' :
+  parse_func_call E pe fuel top nil c = Some (Some t, c') -> errs c' = [] ->
+  func_of E (tlit (cur c)) = Some nil -> tree_ok E t.
+Proof.
+  unfold parse_func_call, tyerr. intros H Q Hf.
+  destruct (top || negb nil) eqn:TN.
+  - destruct (parse_expr_list pe fuel [] (advance c)) as [[args st2]|] eqn:P; [|discriminate H].
+    unfold ret in H. injection H as ? ?; subst.
+    destruct (arity_wrong E _ _) eqn:AW; [autorewrite with errs in Q; discriminate Q|].
+    destruct (e_tyerr E TS_call_args _ _) eqn:TE; [autorewrite with errs in Q; discriminate Q|].
+    simpl. split; [rewrite Hf; discriminate|]. split.
+    + apply all_ok_fix. destruct args as [l|]; [|constructor]. eapply expr_list_ok; [exact P|exact Q|constructor].
+    + left. split; [exact AW|eexists; exact TE].
+  - unfold ret in H. injection H as ? ?; subst. simpl.
+    destruct top; [discriminate TN|]. destruct nil; [|discriminate TN].
+    split; [rewrite Hf; discriminate|]. split; [exact I|]. right. auto.
+Qed.
+
+Lemma toplevel_ok fuel c t c' : parse_toplevel E pe fuel c = Some (Some t, c') -> errs c' = [] -> tree_ok E t.
+Proof.
+  unfold parse_toplevel. intros H Q.
+  destruct (cur_t c); try (eapply HOK; eassumption).
+  destruct (func_of E (tlit (cur c))) as [[|]|] eqn:F; try (eapply HOK; eassumption).
+  eapply func_call_ok; eassumption.
+Qed.
+
+Lemma lookup_var_ok c t c' : lookup_var E c = Some (Some t, c') -> errs c' = [] -> tree_ok E t.
+Proof.
+  unfold lookup_var. intros H Q. chew2 H; injection H as ? ?; subst; try discriminate. simpl. assumption.
+Qed.
+
+Lemma ident_expr_ok fuel c t c' : parse_ident_expr E pe fuel c = Some (Some t, c') -> errs c' = [] -> tree_ok E t.
+Proof.
+  unfold parse_ident_expr. intros H Q.
+  destruct (func_of E _) as [[|]|] eqn:F; try (eapply lookup_var_ok; eassumption).
+  eapply func_call_ok; eassumption.
+Qed.
+
+Lemma array_elems_ok : forall fuel acc c l c', parse_array_elems E pe fuel acc c = Some (Some l, c') ->
+  errs c' = [] -> all_ok E acc -> all_ok E l.
+Proof.
+  induction fuel as [|f IH]; intros acc c l c' H Q Hacc; [discriminate|]. cbn [parse_array_elems] in H. unfold tyerr in H.
+  assert (D1 : ret (Some (rev acc)) c = Some (Some l, c') -> all_ok E l).
+  { unfold ret. intro H1. injection H1 as ? ?; subst. apply Forall_rev. exact Hacc. }
+  destruct (cur_t c); try exact (D1 H);
+    (destruct (parse_expr_wss pe c) as [[n st1]|] eqn:P; [|discriminate H];
+     destruct n as [t|]; [|discriminate H];
+     destruct (e_tyerr E _ _ _); [discriminate H|];
+     destruct (parse_multiline_ws (S f) st1) as [st2|] eqn:W; [|discriminate H];
+     pose proof (array_elems_ne E pe HNE _ _ _ _ _ H Q) as Q2;
+     pose proof (multiline_ws_ne _ _ _ W Q2) as Q1;
+     apply (IH _ _ _ _ H Q); constructor; [|exact Hacc]; eapply expr_wss_ok; eassumption).
+Qed.
+
+Lemma array_literal_ok fuel c t c' : parse_array_literal E pe fuel c = Some (Some t, c') -> errs c' = [] -> tree_ok E t.
+Proof.
+  unfold parse_array_literal. intros H Q.
+  destruct (parse_multiline_ws fuel (advance c)) as [c2|] eqn:W; [|discriminate H].
+  destruct (parse_array_elems E pe fuel [] c2) as [[els c3]|] eqn:P; [|discriminate H].
+  destruct els as [l|]; [|discriminate H].
+  destruct (assert_token T_RBRACKET c3) as [ok c4] eqn:A. destruct ok; [|discriminate H].
+  unfold ret in H. injection H as ? ?; subst. autorewrite with errs in Q.
+  destruct (assert_token_ne _ _ _ _ A Q) as [_ ->].
+  simpl. apply all_ok_fix. eapply array_elems_ok; [exact P|exact Q|constructor].
+Qed.
+
+Definition pairs_ok (l : list (str * tree)) : Prop := Forall (fun kv => tree_ok E (snd kv)) l.
+Lemma pairs_ok_fix l :
+  (fix all (l : list (str * tree)) : Prop := match l with [] => True | x :: r => tree_ok E (snd x) /\ all r end) l <-> pairs_ok l.
+Proof.
+  induction l as [|x l IH]; simpl; [split; [constructor|auto]|].
+  split; [intros [H1 H2]; constructor; [exact H1|apply IH; exact H2]|].
+  intro H. split; [exact (Forall_inv H)|apply IH; exact (Forall_inv_tail H)].
+Qed.
+
+Lemma map_pairs_ok : forall fuel acc c l c', parse_map_pairs E pe fuel acc c = Some (Some l, c') ->
+  errs c' = [] -> pairs_ok acc -> pairs_ok l.
+Proof.
+  induction fuel as [|f IH]; intros acc c l c' H Q Hacc; [discriminate|]. cbn [parse_map_pairs] in H. unfold tyerr in H.
+  assert (D1 : ret (Some (rev acc)) c = Some (Some l, c') -> pairs_ok l).
+  { unfold ret. intro H1. injection H1 as ? ?; subst. apply Forall_rev. exact Hacc. }
+  destruct (cur_t c); try exact (D1 H);
+    (set (st0 := match ttype (as_ident (cur c)) with T_IDENT => c | _ => add_err E_map_key c end) in H;
+     destruct (has_key _ _); [discriminate H|];
+     set (st3 := advance (snd (assert_token T_COLON (advance st0)))) in H;
+     destruct (parse_expr_wss pe st3) as [[n st4]|] eqn:P; [|discriminate H];
+     destruct n as [t|]; [|discriminate H];
+     destruct (e_tyerr E _ _ _); [discriminate H|];
+     destruct (parse_multiline_ws (S f) st4) as [st5|] eqn:W; [|discriminate H];
+     pose proof (map_pairs_ne E pe HNE _ _ _ _ _ H Q) as Q5;
+     pose proof (multiline_ws_ne _ _ _ W Q5) as Q4;
+     apply (IH _ _ _ _ H Q); constructor; [|exact Hacc]; simpl; eapply expr_wss_ok; eassumption).
+Qed.
+
+Lemma map_literal_ok fuel c t c' : parse_map_literal E pe fuel c = Some (Some t, c') -> errs c' = [] -> tree_ok E t.
+Proof.
+  unfold parse_map_literal. intros H Q.
+  destruct (parse_multiline_ws fuel (advance (push_wss false c))) as [c2|] eqn:W; [|discriminate H].
+  destruct (parse_map_pairs E pe fuel [] c2) as [[ps c3]|] eqn:P; [|discriminate H].
+  destruct ps as [l|]; [|discriminate H].
+  destruct (assert_token T_RCURLY c3) as [ok c4] eqn:A. destruct ok; [|discriminate H].
+  unfold ret in H. injection H as ? ?; subst. autorewrite with errs in Q.
+  destruct (assert_token_ne _ _ _ _ A Q) as [_ ->].
+  simpl. apply pairs_ok_fix. eapply map_pairs_ok; [exact P|exact Q|constructor].
+Qed.
+
+Lemma literal_ok fuel c t c' : parse_literal E pe fuel c = Some (Some t, c') -> errs c' = [] -> tree_ok E t.
+Proof.
+  unfold parse_literal. intros H Q.
+  destruct (ttype (cur c)); unfold ret in H; try discriminate H;
+    try (injection H as ? ?; subst; exact I).
+  - destruct (num_lit_ok _); [injection H as ? ?; subst; exact I|discriminate H].
+  - eapply array_literal_ok; eassumption.
+  - eapply map_literal_ok; eassumption.
+Qed.
+
+Lemma unary_ok c t c' : parse_unary E pe c = Some (Some t, c') -> errs c' = [] -> tree_ok E t.
+Proof.
+  unfold parse_unary, tyerr. intros H Q.
+  set (st2 := if is_ws (prev (advance c)) then add_err_at E_ws_after_unary (here c) (advance c) else advance c) in H.
+  destruct (pe unary_operand_prec st2) as [[r st3]|] eqn:P; [|discriminate H].
+  destruct r as [x|]; [|discriminate H].
+  destruct (e_tyerr E TS_unary _ _) eqn:TE; [discriminate H|].
+  unfold ret in H. injection H as ? ?; subst. simpl. split; [eapply HOK; eassumption|eexists; exact TE].
+Qed.
+
+Lemma binary_ok left c t c' : parse_binary E pe left c = Some (Some t, c') -> errs c' = [] -> tree_ok E left -> tree_ok E t.
+Proof.
+  unfold parse_binary, tyerr. intros H Q Hl.
+  destruct (pe _ (advance c)) as [[r st2]|] eqn:P; [|discriminate H].
+  destruct r as [x|]; [|discriminate H].
+  destruct (e_tyerr E TS_binary _ _) eqn:TE; [discriminate H|].
+  unfold ret in H. injection H as ? ?; subst. simpl. split; [exact Hl|]. split; [eapply HOK; eassumption|eexists; exact TE].
+Qed.
+
+Lemma grouped_ok fuel c t c' : parse_grouped E pe fuel c = Some (Some t, c') -> errs c' = [] -> tree_ok E t.
+Proof.
+  unfold parse_grouped. intros H Q.
+  destruct (parse_toplevel E pe fuel (advance (push_wss false c))) as [[e st2]|] eqn:P; [|discriminate H].
+  destruct (assert_token T_RPAREN st2) as [ok st3] eqn:A.
+  destruct ok, e as [x|]; unfold ret in H; try discriminate H.
+  injection H as ? ?; subst. autorewrite with errs in Q. destruct (assert_token_ne _ _ _ _ A Q) as [_ ->].
+  simpl. eapply toplevel_ok; eassumption.
+Qed.
+
+Lemma slice_ok fuel tok left start c t c' :
+  parse_slice E pe fuel tok left start c = Some (Some t, c') -> errs c' = [] ->
+  tree_ok E left -> match start with Some x => tree_ok E x | None => True end ->
+  (exists n, e_tyerr E TS_not_indexable left n = false) -> tree_ok E t.
+Proof.
+  unfold parse_slice, tyerr. intros H Q Hl Hs Hni.
+  destruct (e_tyerr E TS_not_sliceable left tok) eqn:NS; [discriminate H|].
+  assert (D : (do (e, st1) <- parse_toplevel E pe fuel c;
+     match e with
+     | None => ret None st1
+     | Some x =>
+       let '(ok, st2) := assert_token T_RBRACKET st1 in
+       if ok then
+         let st3 := slice_close E st2 in
+         let t := TSlice left start (Some x) in
+         if e_tyerr E TS_slice_bounds t tok then ret None (add_err_at (E_type TS_slice_bounds) tok st3) else ret (Some t) st3
+       else ret None st2
+     end) = Some (Some t, c') -> tree_ok E t).
+  { intro H1. destruct (parse_toplevel E pe fuel c) as [[e st1]|] eqn:P; [|discriminate H1].
+    destruct e as [x|]; [|discriminate H1].
+    destruct (assert_token T_RBRACKET st1) as [ok st2] eqn:A. destruct ok; [|discriminate H1].
+    cbv zeta in H1. destruct (e_tyerr E TS_slice_bounds _ _) eqn:SB; [discriminate H1|].
+    unfold ret in H1. injection H1 as ? ?; subst. autorewrite with errs in Q. destruct (assert_token_ne _ _ _ _ A Q) as [_ ->].
+    simpl. repeat split; auto; try (eexists; eassumption). eapply toplevel_ok; eassumption. }
+  destruct (cur_t c); try exact (D H).
+  cbv zeta in H. destruct (e_tyerr E TS_slice_bounds _ _) eqn:SB; [discriminate H|].
+  unfold ret in H. injection H as ? ?; subst. simpl. repeat split; auto; eexists; eassumption.
+Qed.
+
+Lemma index_or_slice_ok fuel allow left c t c' :
+  parse_index_or_slice E pe fuel allow left c = Some (Some t, c') -> errs c' = [] -> tree_ok E left -> tree_ok E t.
+Proof.
+  unfold parse_index_or_slice, tyerr. intros H Q Hl.
+  destruct (is_ws (prev (push_wss false c))); [discriminate H|].
+  destruct (e_tyerr E TS_not_indexable left (here c)) eqn:NI; [discriminate H|].
+  destruct (allow && _).
+  - destruct (parse_slice E pe fuel (here c) left None (advance (advance (push_wss false c)))) as [[x s]|] eqn:P; [|discriminate H].
+    unfold ret in H. injection H as ? ?; subst. autorewrite with errs in Q.
+    eapply slice_ok; [exact P|exact Q|exact Hl|exact I|eexists; exact NI].
+  - destruct (parse_toplevel E pe fuel (advance (push_wss false c))) as [[ix st2]|] eqn:P; [|discriminate H].
+    destruct ix as [i|]; [|discriminate H].
+    destruct (allow && _).
+    + destruct (parse_slice E pe fuel (here c) left (Some i) (advance st2)) as [[x s]|] eqn:P2; [|discriminate H].
+      unfold ret in H. injection H as ? ?; subst. autorewrite with errs in Q.
+      pose proof (slice_ne E pe HNE _ _ _ _ _ _ _ P2 Q) as Q2. autorewrite with errs in Q2.
+      eapply slice_ok; [exact P2|exact Q| exact Hl| simpl; eapply toplevel_ok; eassumption | eexists; exact NI].
+    + destruct (assert_token T_RBRACKET st2) as [ok st3] eqn:A. destruct ok; [|discriminate H].
+      destruct (e_tyerr E TS_index_type _ _) eqn:IT; [discriminate H|].
+      unfold ret in H. injection H as ? ?; subst. autorewrite with errs in Q. destruct (assert_token_ne _ _ _ _ A Q) as [_ ->].
+      simpl. repeat split; auto; try (eexists; eassumption). eapply toplevel_ok; eassumption.
+Qed.
+
+Lemma dot_ok left c t c' : parse_dot E left c = Some (Some t, c') -> errs c' = [] -> tree_ok E left -> tree_ok E t.
+Proof.
+  unfold parse_dot, tyerr. intros H Q Hl.
+  destruct (is_ws (prev c)); [discriminate H|]. destruct (is_ws (look1 (rest c))); [discriminate H|].
+  destruct (e_tyerr E TS_dot_not_map left (here c)) eqn:DM; [discriminate H|].
+  destruct (ttype (as_ident (cur (advance c)))); unfold ret in H; try discriminate H.
+  injection H as ? ?; subst. simpl. split; [exact Hl|eexists; exact DM].
+Qed.
+
+Lemma type_assertion_ok fuel left c t c' :
+  parse_type_assertion E fuel left c = Some (Some t, c') -> errs c' = [] -> tree_ok E left -> tree_ok E t.
+Proof.
+  unfold parse_type_assertion, tyerr. intros H Q Hl.
+  destruct (is_ws (prev c)); [discriminate H|]. destruct (is_ws (look1 (rest c))); [discriminate H|].
+  destruct (parse_type fuel (advance (advance (push_wss false c)))) as [[ty c2]|] eqn:P; [|discriminate H].
+  destruct ty as [ty|]; [|destruct (assert_token T_RPAREN _); discriminate H].
+  set (st3 := match Some ty with None => add_err_at E_bad_type (here c) c2 | Some TyAny => add_err_at E_assert_any (here c) c2 | Some _ => c2 end) in H.
+  destruct (assert_token T_RPAREN st3) as [ok c4] eqn:A.
+  unfold ret in H. injection H as ? ?; subst. autorewrite with errs in Q.
+  destruct (e_tyerr E TS_assert_not_any left (here c)) eqn:AN; [autorewrite with errs in Q; discriminate Q|].
+  assert (Q4 : errs c4 = []) by (destruct ok; autorewrite with errs in Q; exact Q).
+  destruct (assert_token_ne _ _ _ _ A Q4) as [_ E4]. subst c4.
+  simpl. split; [exact Hl|]. split; [discriminate|]. split; [|eexists; exact AN].
+  intro X. injection X as ->. unfold st3 in Q4. autorewrite with errs in Q4. discriminate Q4.
+Qed.
+
+Lemma prefix_ok fuel c t c' : parse_prefix E pe fuel c = Some (Some t, c') -> errs c' = [] -> tree_ok E t.
+Proof.
+  unfold parse_prefix. intros H Q.
+  destruct (cur_t c); unfold ret in H; try discriminate H;
+    first [ eapply ident_expr_ok; eassumption | eapply literal_ok; eassumption | eapply unary_ok; eassumption | eapply grouped_ok; eassumption ].
+Qed.
+
+Lemma infix_ok fuel left c r t c' :
+  parse_infix E pe fuel left c = Some r -> r = Some (Some t, c') -> errs c' = [] -> tree_ok E left -> tree_ok E t.
+Proof.
+  unfold parse_infix. intros H R Q Hl.
+  destruct (is_binary_op (cur_t c)).
+  - injection H as <-. eapply binary_ok; eassumption.
+  - destruct (cur_t c); try discriminate H.
+    + injection H as <-. eapply index_or_slice_ok; eassumption.
+    + destruct (ttype (peek c)); injection H as <-; first [eapply type_assertion_ok; eassumption | eapply dot_ok; eassumption].
+Qed.
+
+End ExprOK.
+
+Theorem expr_rules E : forall fuel,
+  (forall p c t c', parse_expr E fuel p c = Some (Some t, c') -> errs c' = [] -> tree_ok E t) /\
+  (forall p l c t c', expr_loop E fuel p l c = Some (Some t, c') -> errs c' = [] -> tree_ok E l -> tree_ok E t).
+Proof.
+  induction fuel as [|f [IHe IHl]]; [split; intros; discriminate|].
+  pose proof (proj1 (expr_ne E f)) as NEe. pose proof (proj2 (expr_ne E f)) as NEl.
+  split.
+  - intros p c t c' H Q. rewrite parse_expr_unfold in H.
+    destruct (parse_prefix E (parse_expr E f) f c) as [[l c1]|] eqn:P; [|discriminate H].
+    destruct l as [lf|]; [|discriminate H].
+    pose proof (NEl _ _ _ _ _ H Q) as Q1.
+    eapply IHl; [exact H|exact Q|]. eapply (prefix_ok E (parse_expr E f) NEe IHe); eassumption.
+  - intros p l c t c' H Q Hl. rewrite expr_loop_unfold in H. unfold ret in H.
+    destruct (is_at_expr_end c); [injection H as ? ?; subst; exact Hl|].
+    destruct (loop_continues p (precedences (cur_t c))); [|injection H as ? ?; subst; exact Hl].
+    destruct (parse_infix E (parse_expr E f) f l c) as [r|] eqn:PI; [|injection H as ? ?; subst; exact Hl].
+    destruct r as [[l1 c1]|] eqn:R; [|discriminate H].
+    destruct l1 as [lf|]; [|discriminate H].
+    pose proof (NEl _ _ _ _ _ H Q) as Q1.
+    eapply IHl; [exact H|exact Q|].
+    eapply (infix_ok E (parse_expr E f) NEe IHe); [exact PI|reflexivity|exact Q1|exact Hl].
+Qed.
